@@ -29,7 +29,7 @@ import (
 	"time"
 
 	"github.com/megaease/easegress/pkg/context"
-	_ "github.com/megaease/easegress/pkg/filters/proxy"
+	"github.com/megaease/easegress/pkg/filters/proxy"
 	_ "github.com/megaease/easegress/pkg/filters/requestadaptor"
 	_ "github.com/megaease/easegress/pkg/filters/responseadaptor"
 	"github.com/megaease/easegress/pkg/logger"
@@ -48,6 +48,7 @@ type hcExchange struct {
 	Query      string      `json:"query"`
 	Hdr        [][2]string `json:"hdr"`
 	ConnTokens []string    `json:"conn_tokens"`
+	ConnSplit  bool        `json:"conn_split"` // send each Connection token on its own field line
 	BodyLen    int         `json:"body_len"`
 	Chunked    bool        `json:"chunked"`
 	ChunkSz    int         `json:"chunk_sz"`
@@ -73,6 +74,8 @@ type hcClient struct {
 type hcScenario struct {
 	Prop        string     `json:"prop"`
 	ByHost      bool       `json:"by_host"`
+	ServerForm  string     `json:"server_form"` // "", ip4, host, ip6, ip6noport, hostnoport ("" = ip4 or host per by_host)
+	MemCache    bool       `json:"mem_cache"`   // pool-level memoryCache for GET/POST 200/201
 	KeepHost    bool       `json:"keep_host"`
 	Compress    int        `json:"compress"`     // -1: no compression section, else minLength
 	RespAdaptor string     `json:"resp_adaptor"` // "", compress, decompress, body
@@ -180,6 +183,7 @@ type hcChain struct {
 	script   map[string]*hcExchange
 	backHost string
 	backAddr string
+	byName   bool
 	panics   []string
 }
 
@@ -206,6 +210,7 @@ func hcYAMLInt(name string, v int64) string {
 
 func hcNewChain(r *sim.Run, sc *hcScenario) (*hcChain, error) {
 	c := &hcChain{r: r, sc: sc, seen: map[string]*hcSeen{}, script: map[string]*hcExchange{}}
+	proxy.HCTrack()
 	c.net = simnet.New()
 	simnet.SetDefault(c.net)
 	c.net.PlanFor = func(id int, addr string) (simnet.DirPlan, simnet.DirPlan) {
@@ -224,14 +229,33 @@ func hcNewChain(r *sim.Run, sc *hcScenario) (*hcChain, error) {
 		}
 		return mk(2), mk(3)
 	}
-	c.backHost = "10.9.0.1"
-	if sc.ByHost {
-		c.backHost = "backend.internal"
+	form := sc.ServerForm
+	if form == "" {
+		form = "ip4"
+		if sc.ByHost {
+			form = "host"
+		}
 	}
-	c.backAddr = c.backHost + ":9001"
+	c.byName = false
+	switch form {
+	case "host":
+		c.backHost, c.backAddr, c.byName = "backend.internal", "backend.internal:9001", true
+	case "hostnoport":
+		c.backHost, c.backAddr, c.byName = "backend.internal", "backend.internal", true
+	case "ip6":
+		c.backHost, c.backAddr = "[fd00::9]", "[fd00::9]:9001"
+	case "ip6noport":
+		c.backHost, c.backAddr = "[fd00::9]", "[fd00::9]"
+	default:
+		c.backHost, c.backAddr = "10.9.0.1", "10.9.0.1:9001"
+	}
+	listenAddr := c.backAddr
+	if !strings.Contains(strings.TrimPrefix(listenAddr, "["), "]:") && (strings.HasPrefix(listenAddr, "[") || !strings.Contains(listenAddr, ":")) {
+		listenAddr += ":80" // URL without a port: the transport dials the default port
+	}
 
 	// backend
-	bl, err := c.net.Listen("tcp", c.backAddr)
+	bl, err := c.net.Listen("tcp", listenAddr)
 	if err != nil {
 		return nil, err
 	}
@@ -255,6 +279,9 @@ func hcNewChain(r *sim.Run, sc *hcScenario) (*hcChain, error) {
 	filters.WriteString("  pools:\n  - loadBalance:\n      policy: roundRobin\n")
 	if sc.PoolMax != 0 {
 		fmt.Fprintf(&filters, "    serverMaxBodySize: %d\n", sc.PoolMax)
+	}
+	if sc.MemCache {
+		filters.WriteString("    memoryCache:\n      expiration: 10m\n      maxEntryBytes: 100000\n      codes: [200, 201]\n      methods: [GET, POST]\n")
 	}
 	fmt.Fprintf(&filters, "    servers:\n    - url: http://%s\n", c.backAddr)
 	if sc.KeepHost {
@@ -311,6 +338,7 @@ func hcNewChain(r *sim.Run, sc *hcScenario) (*hcChain, error) {
 }
 
 func (c *hcChain) close() {
+	proxy.HCRelease()
 	c.front.Close()
 	c.backend.Close()
 	c.pipe.Close()
@@ -589,7 +617,11 @@ func hcEncodeRequest(id string, ex *hcExchange, hostHdr string) (head []byte, bo
 	for _, kv := range ex.Hdr {
 		fmt.Fprintf(&b, "%s: %s\r\n", kv[0], kv[1])
 	}
-	if len(ex.ConnTokens) > 0 {
+	if len(ex.ConnTokens) > 0 && ex.ConnSplit {
+		for _, t := range ex.ConnTokens {
+			fmt.Fprintf(&b, "Connection: %s\r\n", t)
+		}
+	} else if len(ex.ConnTokens) > 0 {
 		fmt.Fprintf(&b, "Connection: %s\r\n", strings.Join(ex.ConnTokens, ", "))
 	}
 	if ex.AcceptEnc != "" {
